@@ -98,9 +98,11 @@ class Rx:
 def gen_regex(rng, words):
     """returns dict(src=str, coq=str) ; words: literals likely to occur in the data"""
     w = lambda: B(rng.choice(words))
-    shape = rng.randrange(10)
+    shape = rng.randrange(12)
     bol = eol = False
-    if shape == 0:
+    if shape >= 10:
+        n = ("lit", w()); bol = eol = True          # a pure literal anchored at both ends: the whole line, not a substring
+    elif shape == 0:
         n = ("lit", w())
     elif shape == 1:
         n = ("alt", ("lit", w()), ("lit", w()))
@@ -144,7 +146,7 @@ def gen_ippat(rng, addrs, v6=0.0):
     if rng.random() < v6:
         return rng.choice(IPPATS6), "IPOut"
     a = rng.choice(addrs)
-    k = rng.randrange(3)
+    k = rng.randrange(4)
     if k == 0:
         return a, "(IPEq %d)" % ip_to_int(a)
     if k == 1:
